@@ -139,9 +139,13 @@ func (e *eng) Gen(r *hx.Rand, n int, tier string, prop string, out *hx.Out) {
 			out.P("actor %s w %s %s %s %s %s", name, joinInts(tabs), joinInts(writes), ca, rs, ds)
 			names = append(names, name)
 		}
-		if g.Chance(35) {
+		if g.Chance(40) {
 			out.P("actor r1 reg")
 			names = append(names, "r1")
+			if g.Chance(40) { // two registrations while transactions are open
+				out.P("actor r2 reg")
+				names = append(names, "r2")
+			}
 		}
 		// random schedule with stretches of the same actor, watches taken at random moments
 		steps := 20 + g.Intn(40)
@@ -149,6 +153,10 @@ func (e *eng) Gen(r *hx.Rand, n int, tier string, prop string, out *hx.Out) {
 		for s := 0; s < steps; s++ {
 			if g.Chance(35) {
 				curA = hx.Pick(g, names)
+			}
+			if g.Chance(12) {
+				// release an actor into a lock that is held (it really blocks inside Lock() and is woken by the holder)
+				out.P("force %s", hx.Pick(g, names))
 			}
 			out.P("step %s", curA)
 			if g.Chance(12) {
